@@ -121,6 +121,14 @@ func (e *Enc) EncodeTop() {
 			e.assume(tTrue, g)
 		}
 	}
+	if c != nil {
+		e.protected = map[string][]Term{}
+		for _, pe := range c.Protects {
+			if err := e.addProtected(env, pe); err != nil {
+				e.problem("protects %s: %v", pe, err)
+			}
+		}
+	}
 	// vacuity guard: the precondition is satisfiable
 	cov := e.oblige(e.topName()+":cover:requires", "cover", tTrue, tTrue, "")
 	cov.Cover = true
@@ -526,4 +534,42 @@ func encodeFunction(w *World, fn *ssa.Function, c *Contract) *Enc {
 	}
 	e2.EncodeTop()
 	return e2
+}
+
+func (e *Enc) addProtected(env *CEnv, pe CExpr) error {
+	if call, ok := pe.(*CCall); ok && call.Fn == "mem" && len(call.Args) == 1 {
+		xv, err := env.eval(call.Args[0])
+		if err != nil {
+			return err
+		}
+		sl, ok := xv.T.Underlying().(*types.Slice)
+		if !ok {
+			return fmt.Errorf("mem() of non-slice")
+		}
+		k := e.memKey(e.sortOf(sl.Elem()))
+		e.protected[k] = append(e.protected[k], e.def("prot", T(SInt, "(s_arr %s)", xv.S)))
+		return nil
+	}
+	xv, err := env.eval(pe)
+	if err != nil {
+		return err
+	}
+	if xv.T == nil {
+		return fmt.Errorf("untyped")
+	}
+	p, ok := xv.T.Underlying().(*types.Pointer)
+	if !ok {
+		return fmt.Errorf("not a pointer")
+	}
+	stt, ok := p.Elem().Underlying().(*types.Struct)
+	if !ok {
+		return fmt.Errorf("not a pointer to struct")
+	}
+	ref := e.def("prot", xv.Term)
+	for i := 0; i < stt.NumFields(); i++ {
+		k, _, _ := e.fieldKey(p.Elem(), i)
+		e.protected[k] = append(e.protected[k], ref)
+	}
+	e.noteAssume("ownership: calls out of " + e.topName() + " do not write the fields of " + pe.String())
+	return nil
 }
